@@ -44,6 +44,7 @@ type scenario struct {
 	play    []string // play events after a successful PLAY; the last one is terminal
 	keep    bool     // route.KeepAlive
 	rtsp    bool     // the requester is a real RTSP session (DESCRIBE over a net.Pipe) instead of a direct media.GetOrCreate call
+	builtin bool     // run under the built-in NetTimeout (thorough tier only; not part of the case line)
 }
 
 func (s *scenario) line() string {
@@ -658,7 +659,7 @@ func waitChNow(ch <-chan struct{}) bool {
 // its Unregist must not remove the winner.  `long` bounds every wait (it costs nothing when the event
 // arrives).  exercised=false: the two requests did not both pull (one was served by the other's
 // stream, or the machine was too slow to hold them together): nothing to judge.
-func runDual(id int, pauseRegist bool, long time.Duration) (obs string, notes []string, exercised bool) {
+func runDual(id int, pauseRegist bool, long time.Duration, n int) (obs string, notes []string, exercised bool) {
 	path := fmt.Sprintf("/c20/dual%d", id)
 	cam, err := newCamera(nil, "")
 	if err != nil {
@@ -690,7 +691,7 @@ func runDual(id int, pauseRegist bool, long time.Duration) (obs string, notes []
 	verifhook.Set(func(point string, _ uint32) {
 		switch point {
 		case "getorcreate.miss":
-			if atomic.AddInt32(&arrived, 1) == 2 {
+			if atomic.AddInt32(&arrived, 1) == int32(n) {
 				close(both)
 			}
 			waitCh(both, long)
@@ -702,10 +703,10 @@ func runDual(id int, pauseRegist bool, long time.Duration) (obs string, notes []
 		}
 	})
 	defer verifhook.Set(nil)
-	res := make([]*media.Stream, 2)
-	outs := make([]string, 2)
+	res := make([]*media.Stream, n)
+	outs := make([]string, n)
 	var wg sync.WaitGroup
-	for i := 0; i < 2; i++ {
+	for i := 0; i < n; i++ {
 		wg.Add(1)
 		go func(i int) {
 			defer wg.Done()
@@ -722,43 +723,55 @@ func runDual(id int, pauseRegist bool, long time.Duration) (obs string, notes []
 		close(registRelease)
 	}
 	fail := "live=? registered=0 loserconn=0 winnerkept=0 clean=0 leak=0 both=0"
-	if outs[0] == "hang" || outs[1] == "hang" || outs[0] == "panic" || outs[1] == "panic" {
-		return fail, []string{"GetOrCreate: " + outs[0] + " / " + outs[1]}, true
+	distinct := map[*media.Stream]bool{}
+	for i := range res {
+		if outs[i] == "hang" || outs[i] == "panic" {
+			return fail, []string{"GetOrCreate: " + strings.Join(outs, " / ")}, true
+		}
+		if res[i] == nil {
+			return fail, []string{"a request for a cooperative camera got no stream: " + strings.Join(outs, " / ")}, true
+		}
+		distinct[res[i]] = true
 	}
-	if res[0] == nil || res[1] == nil {
-		return fail, []string{"a request for a cooperative camera got no stream: " + outs[0] + " / " + outs[1]}, true
-	}
-	if res[0] == res[1] {
-		return "", nil, false // one request was served by the other's pull: one stream, nothing raced
+	if len(distinct) < n {
+		return "", nil, false // a request was served by another one's pull: nothing (or not everything) raced
 	}
 	var conns []*camConn
-	for len(conns) < 2 {
+	for len(conns) < n {
 		select {
 		case cc := <-cam.accepts:
 			conns = append(conns, cc)
 		case <-time.After(long):
-			return fail, []string{"two streams but fewer than two camera connections"}, true
+			return fail, []string{fmt.Sprintf("%d streams but fewer camera connections", n)}, true
 		}
 	}
 	// both Regist calls done: one of the two is the registered one and the other is not OK any more,
 	// or (the defect) both stay OK
-	until(func() bool {
-		w := media.Get(path)
-		return (w == res[0] && res[1].VerifStatus() != media.StreamOK) || (w == res[1] && res[0].VerifStatus() != media.StreamOK)
-	})
-	live := 0
-	for _, s := range res {
-		if s.VerifStatus() == media.StreamOK {
-			live++
+	countLive := func() (live int) {
+		for _, s := range res {
+			if s.VerifStatus() == media.StreamOK {
+				live++
+			}
 		}
+		return
 	}
+	until(func() bool { w := media.Get(path); return w != nil && distinct[w] && countLive() == 1 })
+	live := countLive()
 	winner := media.Get(path)
-	registered := winner == res[0] || winner == res[1]
+	registered := winner != nil && distinct[winner]
 	// both cameras keep sending: the retired client's next packet must end its pull, the winner's goes on
 	for _, cc := range conns {
 		defer keepSending(cc, 1)()
 	}
-	loserConn := live == 1 && until(func() bool { return waitChNow(conns[0].peerGone) != waitChNow(conns[1].peerGone) })
+	gone := func() (k int) {
+		for _, cc := range conns {
+			if waitChNow(cc.peerGone) {
+				k++
+			}
+		}
+		return
+	}
+	loserConn := live == 1 && until(func() bool { return gone() == n-1 })
 	oneConn := live == 1 && until(func() bool { return stats.RtspConns.GetSample().Active == base+1 })
 	winnerKept := media.Get(path) == winner && winner != nil
 	// the end: the camera goes away
@@ -784,6 +797,8 @@ func pullGoroutines() (n int, sample string) {
 	buf = buf[:runtime.Stack(buf, true)]
 	for _, g := range strings.Split(string(buf), "\n\n") {
 		if strings.Contains(g, "rtsp.(*PullClient)") || strings.Contains(g, "media.(*consumption).consume") ||
+			// the requester's RTSP session (it holds a stats.RtspConns count of its own until it has wound down)
+			strings.Contains(g, "rtsp.(*Session).process") ||
 			// the conversion workers of a pulled stream (a stream built for a pull that then fails must not stay alive)
 			strings.Contains(g, "rtp.(*Demuxer).process") || strings.Contains(g, "flv.(*Muxer).process") || strings.Contains(g, "mpegts.(*Muxer).process") {
 			n++
@@ -933,6 +948,9 @@ func hangAfter() time.Duration { return time.Duration(atomic.LoadInt64(&hangNs))
 
 func setPhase(nt time.Duration) {
 	config.VerifSetNetTimeouts(nt, heartbeat)
+	if nt == 0 { // no override: the built-in NetTimeout (45 s, a regenerated fact)
+		nt = 45 * time.Second
+	}
 	h := 4*nt + 2*time.Second // the requester not back after 4 × NetTimeout: reported as a hang
 	if atomic.LoadInt32(&patient) == 1 {
 		h += 20 * time.Second
@@ -1019,7 +1037,7 @@ func runBatches(scs []*scenario, idx []int, obs []*observation, tag string) {
 		if leakPinned {
 			continue // a leak is already pinned on concrete scenarios; later batches cannot be judged any more
 		}
-		okc := waitFor(func() bool { return stats.RtspConns.GetSample().Active == base })
+		okc := waitFor(func() bool { return stats.RtspConns.GetSample().Active <= base })
 		okg := waitSlow(func() bool { n, _ := pullGoroutines(); return n == 0 })
 		if !okc || !okg {
 			// pin the leak on single scenarios: re-run the batch one by one (stop at the third culprit)
@@ -1047,7 +1065,7 @@ func runAlone(s *scenario, path string, obs []*observation, i int) bool {
 	b0 := stats.RtspConns.GetSample().Active
 	g0, _ := pullGoroutines()
 	o := runScenarioGuarded(s, path)
-	c1 := waitFor(func() bool { return stats.RtspConns.GetSample().Active == b0 })
+	c1 := waitFor(func() bool { return stats.RtspConns.GetSample().Active <= b0 })
 	var sample string
 	g1 := waitSlow(func() bool { n, sm := pullGoroutines(); sample = sm; return n <= g0 })
 	if !c1 {
@@ -1099,6 +1117,23 @@ func runC20(c *Ctx) {
 	// phase B: the scenarios in which the camera goes silent: the client's own timeout has to expire
 	setPhase(2500 * time.Millisecond)
 	runBatches(scs, silent, obs, "b")
+	if c.Thorough() && c.Replay == "" {
+		// phase C: silence under the BUILT-IN timeout (no override): the handshake read and the play loop really
+		// run under a deadline when nothing shortens it
+		var builtin []int
+		for _, sc := range []*scenario{
+			{listen: true, urlPath: true, sdp: "v", script: []string{"ok", "sil"}, play: []string{"eof"}, builtin: true},
+			{listen: true, urlPath: true, sdp: "v", play: []string{"p0", "sil"}, builtin: true},
+		} {
+			sc.id = len(scs)
+			builtin = append(builtin, len(scs))
+			scs = append(scs, sc)
+			obs = append(obs, nil)
+		}
+		setPhase(0)
+		runBatches(scs, builtin, obs, "c")
+		c.CountN("silence-under-the-built-in-timeout", len(builtin))
+	}
 	lines := make([]string, len(scs))
 	for i, s := range scs {
 		lines[i] = obsLine(s, obs[i])
@@ -1159,6 +1194,11 @@ func runC20(c *Ctx) {
 				unconfirmed[i] = true
 				continue
 			}
+			if scs[i].builtin {
+				setPhase(0)
+			} else {
+				setPhase(6 * time.Second)
+			}
 			runAlone(scs[i], fmt.Sprintf("/c20/c%d", i), obs, i)
 			l2 = append(l2, obsLine(scs[i], obs[i]))
 			done = append(done, i)
@@ -1191,18 +1231,22 @@ func runC20(c *Ctx) {
 	dualConfirmedBad := false
 	for i := 0; i < nDual && !dualConfirmedBad; i++ {
 		pause := i%2 == 1
-		ob, notes, ex := runDual(i, pause, 8*time.Second)
+		n := 2
+		if i%3 == 2 {
+			n = 3
+		}
+		ob, notes, ex := runDual(i, pause, 8*time.Second, n)
 		for try := 0; try < 2 && (!ex || ob != dualGood); try++ {
 			c.Count("dual-first-run-repeated")
-			ob, notes, ex = runDual(i, pause, patience)
+			ob, notes, ex = runDual(i, pause, patience, n)
 		}
-		caseLine := fmt.Sprintf("c20 dual # run %d, first Regist paused=%v", i, pause)
+		caseLine := fmt.Sprintf("c20 dual # run %d, %d simultaneous first requests, first Regist paused=%v", i, n, pause)
 		if !ex {
 			c.Count("dual-not-exercised")
 			continue
 		}
 		m := KV(dualOut[0])
-		c.Eval(fmt.Sprintf("dual-%d", i%2), true)
+		c.Eval(fmt.Sprintf("dual-%d-%d", n, i%2), true)
 		c.Count("dual-" + ob)
 		k := KV(ob)
 		if got := fmt.Sprintf("live=%s;registered=%s", k["live"], k["registered"]); got != m["model"] {
@@ -1260,7 +1304,8 @@ func runC20(c *Ctx) {
 			c.Find(Finding{Kind: "corr", Class: "pull-scenario", Case: caseLine, Impl: implKey, Model: m["model"], Detail: strings.Join(o.notes, "; ")})
 		}
 		if o.extraBad {
-			c.Find(Finding{Kind: "oracle", Class: "request-after-play-not-keepalive", Case: caseLine, Impl: o.String(), Detail: strings.Join(o.notes, "; ")})
+			// the property does not speak of what the client sends while playing; the model does (keep-alive OPTIONS to the route URL)
+			c.Find(Finding{Kind: "corr", Class: "request-after-play-not-keepalive", Case: caseLine, Impl: o.String(), Model: "only OPTIONS to the route URL after PLAY", Detail: strings.Join(o.notes, "; ")})
 		}
 		if o.extra > 0 {
 			c.Count("keepalive-seen")
